@@ -344,6 +344,8 @@ class Machine:
             cands = ["var", "len_scale", "nugget"] + sorted(r.opt)
             return {"op": "boundary", "param": rng.choice(cands),
                     "side": rng.choice(["lo", "hi"])}
+        if rng.random() < 0.12:
+            return {"fault": "errstate", "value": rng.choice(["warn", "ignore"])}
         # rejected_set
         cands = ["var", "var_raw", "len_scale", "nugget", "len_scale_list", "integral_scale"]
         if r.dim > 1:
@@ -436,7 +438,10 @@ class Machine:
 
     # ------------------------------------------------------------------ execution
     def apply(self, op):
-        if "fault" in op:
+        if op.get("fault") == "errstate":
+            np.seterr(all=op["value"])
+            self.ctx.fired("errstate")
+        elif "fault" in op:
             self._rejected(op)
         elif op["op"] == "set":
             self._set(op)
@@ -756,6 +761,12 @@ class Machine:
             # var = var_raw * factor is a floating point round trip: exactly-at-the-bound can
             # land one ulp outside; the property does not promise acceptance there
             raise Inapplicable("TPL variance round trip at a bound")
+        if closed:
+            # the assignment may push a derived value (TPL variance) out of *its* bounds
+            trial = copy.deepcopy(r)
+            self._ref_apply(trial, name, val)
+            if not self._ref_in_bounds(trial):
+                raise Inapplicable("a derived value would leave its bounds")
         try:
             self._assign(name, val)
             accepted = True
